@@ -56,6 +56,15 @@ def sb7(facts, rep):
         return
     rate = lit.get('s')
     sent = lit.get('sentinel')
+    key = 'sample|sentinel-taken-from-the-text'
+    if sent is not None and sent[0] == 'call' and sent[1].endswith('suffix_array::sentinel') and len(sent[2]) == 1 and \
+            strip_casts(sent[2][0])[0] == 'local' and strip_casts(sent[2][0])[1] == 2:
+        rep.ok(rule, key, '%s:%s' % (w.file, w.line), 'sentinel(text)')
+    else:
+        rep.bad(rule, key, '%s:%s' % (w.file, w.line), 'the sentinel kept in the sampled array is `%s`, not the terminating symbol '
+                                                       'of the text (suffix_array::sentinel(text)): for texts ending in another '
+                                                       'sentinel no extra rows are recorded and get() walks through sentinel rows' % (
+                    fmt(sent) if sent else None))
     wg = rem_guards(w)
     key = 'sample|stores-rows-with-i-mod-rate-eq-0'
     ok_w = False
